@@ -375,7 +375,8 @@ Lemma outcome_cases o : never_panics o -> o = OutOk \/ exists e, o = OutErr e.
 Proof. intros H. destruct o; eauto. exfalso. apply (H site). reflexivity. Qed.
 
 Theorem new_custom_err_iff prefix labels :
-  (exists e, new_custom_o prefix labels = OutErr e) <-> ~ (prefix_ok prefix /\ Forall valid_label (common_names labels)).
+  (exists e, new_custom_o prefix labels = OutErr e) <->
+  ~ (prefix_ok prefix /\ Forall valid_label (common_names labels) /\ ~ In reserved_le (common_names labels)).
 Proof.
   rewrite <- (@reg_new_custom_ok_iff unit). unfold new_custom_o.
   destruct (@reg_new_custom unit prefix labels) as [r|e]; cbn; split.
